@@ -56,7 +56,7 @@ def list_with_la_filtered(broker):
     return ' '.join(_list_items(Specs.ls_la_filtered_dirs))
 
 
-@datasource(HostContext)
+@datasource(HostContext, optional=[FSTab])
 def list_with_lan(broker):
     filters = set(_list_items(Specs.ls_lan_dirs))
     if 'fstab_mounted.dirs' in filters and FSTab in broker:
